@@ -36,11 +36,11 @@ func newKV(store string, ctl *kvctl.Ctl) (*keyvalue.FS, error) {
 }
 
 type KVFaultInst struct {
-	cfg    *KVFaultConfig
-	ctl    *kvctl.Ctl
-	fs     *keyvalue.FS
-	probe  *Inst
-	state  *tla.Value
+	cfg      *KVFaultConfig
+	ctl      *kvctl.Ctl
+	fs       *keyvalue.FS
+	probe    *Inst
+	state    *tla.Value
 	faults   []string
 	wfFaults []string
 	dirty    bool
